@@ -201,7 +201,7 @@ def run_harnesses(hs, tier):
         results.append(run_one(h, keys))
     # crate `codec` (serde_amqp only) tolerates parallel cargo-kani runs in one target dir; crate `amqp` does not
     # (concurrent runs race in the dependency build), so its harnesses run one after the other
-    par = [h for h in rest if h['crate'] == 'codec']
+    par = [h for h in rest if h['crate'] == 'codec']  # crates other than codec are heavier and share dependency builds: sequential
     seq = [h for h in rest if h['crate'] != 'codec']
     with ThreadPoolExecutor(max_workers=int(os.environ.get('VERIF_KANI_JOBS', '6'))) as ex:
         fut = ex.submit(lambda: [run_one(h, keys) for h in seq])
